@@ -196,6 +196,10 @@ def probe_call(kwargs, kind, logfile=None, loglist=None, ctl=None, hidden=None):
             os.write(fd, (json.dumps(rec) + "\n").encode())
         finally:
             os.close(fd)
+    if c.get("seed_random") is not None:
+        # a function that seeds the global random generator itself (a "reproducible" simulation)
+        import random
+        random.seed(c["seed_random"])
     j = c.get("jitter_us")
     if j:
         h = enc(kwargs, "jit", c.get("jitter_seed", 0)) % (int(j) + 1)
